@@ -13,6 +13,12 @@ Driver for the enum / bit field model.  kind = `e` (NewEnumType) | `b` (NewBitfi
   spec.assign <kind> (<name-hex> <int|->)*   -> none | ok <hex:int,...>   (RFC 7950 assignment, table listed by ascending name)
   spec.steps  <kind> (<name-hex> <int|->)*   -> the spec.assign answer of every non-empty prefix of the calls, separated by ` | `
       (the table read back after call k is judged against the RFC assignment of the first k calls)
+  enum.after <kind> <n> (<name-hex> <hex|nil>)^n (<name-hex> <int|->)*   a table that was RESOLVED from n written members
+      (the `set` closure of Type.resolve, as enum.text) and is then operated on through Set / SetNext (as enum.steps): the calls go on
+      from the state the written members left (the members, last = the highest value so far)
+      -> err=- <table as resolved>  |  err=<class|-> <table after call 1>  |  ...     (err=written(<idx:class,...>) alone when the written list has errors)
+  spec.after <kind> <n> (<name-hex> <hex|nil>)^n (<name-hex> <int|->)*   -> the spec.assign answer of the written members followed by the
+      first i calls, i = 0 .. number of calls, separated by ` | ` (na / none as spec.text when a written argument is outside the literal form)
   spec.text   <kind> (<name-hex> <hex|nil>)* -> na | none | ok <...>       (na: some argument is an integer in a spelling outside the claimed literal form `[-] digits` without superfluous leading zeros; none also when some argument is no integer at all)
 -/
 open Goyang Goyang.Proto
@@ -107,6 +113,26 @@ def showSpec (k : Spec.Enum.Kind) (ms : List (Name × Option Int)) : String :=
 def showSpecSteps (k : Spec.Enum.Kind) (ms : List (Name × Option Int)) : String :=
   " | ".intercalate ((List.range ms.length).map fun i => showSpec k (ms.take (i + 1)))
 
+/-- `<n> x1 .. x2n y...` ↦ (the 2n fields of the written members, the fields of the calls) -/
+def splitAfter : List String → Option (List String × List String)
+  | [] => none
+  | n :: more =>
+    match n.toNat? with
+    | some k => if 2 * k ≤ more.length then some (more.take (2 * k), more.drop (2 * k)) else none
+    | none => none
+
+/-- a resolved table (the text fold of the written members) and the calls made on it afterwards -/
+def showAfter (e : EnumType) (tms : List (Name × Option (List UInt8))) (oms : List Member) : String :=
+  let (e0, errs0) := foldText e tms
+  if errs0.isEmpty then
+    " | ".intercalate (("err=- " ++ showTable e0) :: (if oms.isEmpty then [] else [showSteps e0 oms]))
+  else
+    "err=written(" ++ commaSep (errs0.map fun (i, c) => s!"{i}:{c.name}") ++ ")"
+
+/-- the RFC assignment of the written members followed by the first i calls, i = 0 .. number of calls -/
+def showSpecAfter (k : Spec.Enum.Kind) (ms : List (Name × Option Int)) (oms : List (Name × Option Int)) : String :=
+  " | ".intercalate ((List.range (oms.length + 1)).map fun i => showSpec k (ms ++ oms.take i))
+
 def handle : List String → String
   | "enum.ops" :: k :: rest =>
     match kindOf k, opsArgs rest with
@@ -127,6 +153,23 @@ def handle : List String → String
   | "spec.steps" :: k :: rest =>
     match kindOf k, specArgs rest with
     | some (_, k), some ms => showSpecSteps k ms
+    | _, _ => "bad-op"
+  | "enum.after" :: k :: rest =>
+    match kindOf k, splitAfter rest with
+    | some (e, _), some (tx, ops) =>
+      match textArgs tx, opsArgs ops with
+      | some tms, some oms => showAfter e tms oms
+      | _, _ => "bad-op"
+    | _, _ => "bad-op"
+  | "spec.after" :: k :: rest =>
+    match kindOf k, splitAfter rest with
+    | some (_, k), some (tx, ops) =>
+      match textArgs tx, specArgs ops with
+      | some tms, some oms =>
+        match specTextArgs tms with
+        | some ms => showSpecAfter k ms oms
+        | none => if anyNotInteger tms then "none" else "na"
+      | _, _ => "bad-op"
     | _, _ => "bad-op"
   | "spec.text" :: k :: rest =>
     match kindOf k, textArgs rest with
